@@ -39,7 +39,7 @@ def remove_post(st0, st1, a, res):
     out = [("queue object unchanged", queue(st1, b).term == q),
            ("membership = old minus the order", z3.ForAll([y], st1.mem(q, y) == z3.And(st0.mem(q, y), y != o.term))),
            ("length - 1", st1.length(q) == st0.length(q) - 1)]
-    return out + book_inv(st1, b, "BookInv' ")
+    return out + book_inv_step(st0, st1, b)
 
 
 REMOVE = FSpec("OrderBook._remove", axioms=lambda st, a: book_axioms(st, a["self"]), pre=remove_pre, post=remove_post, modifies=remove_modifies, props=("C02", "C04"))
@@ -88,7 +88,7 @@ def cov_post(st0, st1, a, res):
     return [("volume' = volume + delta", v1 == O(st0, "volume")[o.term] + dl.term),
             ("queue object unchanged", queue(st1, b).term == q),
             ("resting iff volume' > 0; other members untouched", z3.ForAll([y], st1.mem(q, y) == z3.And(st0.mem(q, y), z3.Or(y != o.term, v1 > 0)))),
-            ("length", st1.length(q) == st0.length(q) - z3.If(v1 == 0, 1, 0))] + book_inv(st1, b, "BookInv' ")
+            ("length", st1.length(q) == st0.length(q) - z3.If(v1 == 0, 1, 0))] + book_inv_step(st0, st1, b)
 
 
 CHANGE_VOLUME = FSpec("OrderBook.change_order_volume", axioms=lambda st, a: book_axioms(st, a["self"]), pre=cov_pre, post=cov_post, modifies=cov_modifies, props=("C04",))
@@ -131,7 +131,7 @@ def add_post(st0, st1, a, res):
             ("queue object unchanged", queue(st1, b).term == q),
             ("expiry dict object unchanged", etl(st1, b).term == etl(st0, b).term),
             ("membership = old plus the order", z3.ForAll([y], st1.mem(q, y) == z3.Or(st0.mem(q, y), y == o.term))),
-            ("length + 1", st1.length(q) == st0.length(q) + 1)] + book_inv(st1, b, "BookInv' ")
+            ("length + 1", st1.length(q) == st0.length(q) + 1)] + book_inv_step(st0, st1, b)
 
 
 ADD = FSpec("OrderBook.add", axioms=lambda st, a: book_axioms(st, a["self"]), pre=add_pre, post=add_post, modifies=add_modifies, props=("C02", "C04"),
@@ -171,7 +171,7 @@ def cancel_post(st0, st1, a, res):
             ("cancel.placed_at = book time", z3.And(z3.Not(cp.none), cp.term == st0.read(b, "time").term)),
             ("queue object unchanged", queue(st1, b).term == q),
             ("order no longer rests; others untouched", z3.ForAll([y], st1.mem(q, y) == z3.And(st0.mem(q, y), y != o))),
-            ("length", st1.length(q) == st0.length(q) - z3.If(st0.mem(q, o), 1, 0))] + book_inv(st1, b, "BookInv' ")
+            ("length", st1.length(q) == st0.length(q) - z3.If(st0.mem(q, o), 1, 0))] + book_inv_step(st0, st1, b)
 
 
 CANCEL = FSpec("OrderBook.cancel", axioms=lambda st, a: book_axioms(st, a["self"]), pre=cancel_pre, post=cancel_post, modifies=cancel_modifies, props=("C04",))
@@ -235,7 +235,7 @@ def ceo_post(st0, st1, a, res):
              z3.ForAll([j], z3.Implies(z3.And(0 <= j, j < n), z3.And(expired(st0, b, src_of(j)), pos_of(src_of(j)) == j, log_describes(st1, z3.Select(le, j), st0, src_of(j), t),
                                                                      z3.Not(st0.is_alloc(z3.Select(le, j))))))),
             ("every expired order has its log", z3.ForAll([y], z3.Implies(expired(st0, b, y), z3.And(0 <= pos_of(y), pos_of(y) < n, src_of(pos_of(y)) == y)))),
-            ("len(result) >= 0, result is a new list", z3.And(n >= 0, z3.Not(st0.is_alloc(res.term))))] + book_inv(st1, b, "BookInv' ")
+            ("len(result) >= 0, result is a new list", z3.And(n >= 0, z3.Not(st0.is_alloc(res.term))))] + book_inv_step(st0, st1, b)
 
 
 CHECK_EXPIRED = FSpec("OrderBook._check_expired_orders", axioms=lambda st, a: book_axioms(st, a["self"]), pre=ceo_pre, post=ceo_post, modifies=ceo_modifies, props=("C04",), fresh_result=True,
@@ -331,7 +331,7 @@ def st_post(st0, st1, a, res):
              z3.ForAll([j], z3.Implies(z3.And(0 <= j, j < n), z3.And(expired(st0, b, src_of(j), t), pos_of(src_of(j)) == j, log_describes(st1, z3.Select(le, j), st0, src_of(j), t),
                                                                      z3.Not(st0.is_alloc(z3.Select(le, j))))))),
             ("every expired order has its log", z3.ForAll([y], z3.Implies(expired(st0, b, y, t), z3.And(0 <= pos_of(y), pos_of(y) < n, src_of(pos_of(y)) == y)))),
-            ("len(result) >= 0, result is a new list", z3.And(n >= 0, z3.Not(st0.is_alloc(res.term))))] + book_inv(st1, b, "BookInv' ")
+            ("len(result) >= 0, result is a new list", z3.And(n >= 0, z3.Not(st0.is_alloc(res.term))))] + book_inv_step(st0, st1, b)
 
 
 def st_effect_ghost(st0, st1, a, res):
